@@ -33,6 +33,25 @@ TRUSTED = ["mpmath (50 digits) evaluation and differentiation of Tankov's formul
 INF = math.inf
 
 
+def guarded(probe):
+    """an exception coming out of rpylib on a generated (valid) input is a failure of the property on the implementation;
+    an exception of the harness itself stays an infrastructure error"""
+    def deco(fn):
+        def wrapped(ctx, inp):
+            try:
+                return fn(ctx, inp)
+            except Exception as e:  # noqa
+                import traceback
+                frames = traceback.extract_tb(e.__traceback__)
+                if not any("/rpylib/" in fr_.filename for fr_ in frames):
+                    raise
+                ctx.fail("oracle", probe, inp, {"what": "the implementation raises on this input", "exception": repr(e)[:300],
+                                                "where": f"{frames[-1].filename}:{frames[-1].lineno}"}, cls={})
+        wrapped.__name__ = fn.__name__
+        return wrapped
+    return deco
+
+
 # ------------------------------------------------------------------------------------------------ helpers
 def make(cd):
     if cd["cop"] == "clayton":
@@ -136,6 +155,7 @@ def classify(cd, pts):
 
 
 # ------------------------------------------------------------------------------------------------ C: implementation vs M
+@guarded("c11.grounded")
 def p_model_copula(ctx, inp):
     cd, us = inp["cop"], inp["us"]
     name = lean_name(cd)
@@ -149,6 +169,7 @@ def p_model_copula(ctx, inp):
     return True
 
 
+@guarded("c11.volume_nonneg")
 def p_model_volume(ctx, inp):
     cd, a, b = inp["cop"], inp["a"], inp["b"]
     name = lean_name(cd)
@@ -165,6 +186,7 @@ def p_model_volume(ctx, inp):
     return True
 
 
+@guarded("c11.margin_identity")
 def p_model_margin(ctx, inp):
     cd, idx, d, u = inp["cop"], inp["idx"], inp["d"], inp["u"]
     name = lean_name(cd)
@@ -181,6 +203,7 @@ def p_model_margin(ctx, inp):
     return True
 
 
+@guarded("c11.cond_distribution")
 def p_model_cond(ctx, inp):
     eta, e, x = inp["eta"], inp["e"], inp["x"]
     cop = ClaytonCopula(theta=1.0, eta=eta)
@@ -197,6 +220,7 @@ def p_model_cond(ctx, inp):
 
 
 # ------------------------------------------------------------------------------------------------ S: the property on the implementation
+@guarded("c11.grounded")
 def p_grounded(ctx, inp):
     cd, us = inp["cop"], inp["us"]
     v = call(make(cd), us)
@@ -205,6 +229,7 @@ def p_grounded(ctx, inp):
         ctx.fail("oracle", "c11.grounded", inp, {"what": "F(u) != 0 although an argument is 0", "F": v}, cls=classify(cd, [tuple(us)]))
 
 
+@guarded("c11.volume_nonneg")
 def p_volume_nonneg(ctx, inp):
     cd, a, b = inp["cop"], inp["a"], inp["b"]
     cop = make(cd)
@@ -227,6 +252,7 @@ def p_volume_nonneg(ctx, inp):
                                                      "volume": v, "corner_values": vals}, cls=cls, mirrors_model=mirrors)
 
 
+@guarded("c11.margin_identity")
 def p_margin_identity(ctx, inp):
     cd, i, d, u = inp["cop"], inp["i"], inp["d"], inp["u"]
     cop = make(cd)
@@ -259,6 +285,7 @@ def mp_clayton(theta, eta, us):
     return mp.mpf(2) ** (2 - len(us)) * s ** (-1 / theta) * (eta if sg > 0 else -(1 - eta))
 
 
+@guarded("c11.clayton_formula")
 def p_clayton_formula(ctx, inp):
     """general theta: implementation vs formula (7) in mpmath, and the mixed derivative vs mpmath's partial derivative"""
     import mpmath as mp
@@ -288,6 +315,7 @@ def cond(cop, e, x):
         return float(cop.conditional_distribution(e, np.array([x], dtype=float))[0])
 
 
+@guarded("c11.cond_distribution")
 def p_cond_distribution(ctx, inp):
     """x -> F_eps(x) is a distribution function: values in [0,1], non-decreasing, limits 0 and 1; it is the eps-derivative
     of F(eps,x) - F(eps,-inf); the stated inverse inverts it"""
@@ -354,7 +382,7 @@ def sign_patterns(d):
 
 def run(ctx, oracle_only=False, factor=1):
     rng = ctx.rng
-    n = ctx.n(1, 8) * factor
+    n = ctx.n(16, 100) * factor
     # --- every sign pattern of rectangles, every copula kind, d = 2, 3
     for rep in range(4 * n):
         for d in (2, 3):
@@ -408,7 +436,7 @@ def run(ctx, oracle_only=False, factor=1):
             eta = rng.choice([0.0, 1.0, rng.randint(1, 63) / 64, rng.uniform(0, 1)])
             p_model_cond(ctx, dict(eta=eta, e=e, x=x, us=us))
     # --- Clayton general theta: formula (7), mixed derivative (mpmath), conditional distribution and its inverse
-    for rep in range(ctx.n(40, 400) * factor):
+    for rep in range(ctx.n(120, 1200) * factor):
         d = rng.choice([2, 3])
         cd = draw_cop(rng)
         while cd["cop"] != "clayton":
@@ -416,7 +444,7 @@ def run(ctx, oracle_only=False, factor=1):
         m = math.exp(rng.uniform(math.log(1e-2), math.log(1e2)))
         us = [rng.choice([-1, 1]) * m * math.exp(rng.uniform(-2, 2)) for _ in range(d)]
         p_clayton_formula(ctx, dict(theta=cd["theta"], eta=cd["eta"], us=us))
-    for rep in range(ctx.n(60, 600) * factor):
+    for rep in range(ctx.n(200, 2000) * factor):
         cd = draw_cop(rng)
         while cd["cop"] != "clayton":
             cd = draw_cop(rng)
